@@ -7,8 +7,9 @@ import ast
 from tiv.astutil import (value_cases, conds, body_walk, call_name, dotted, enclosing_stmt, guards, norm, short, stores_in, walk_local,
                          with_context)
 from tiv.callgraph import CallGraph
-from tiv.cfg import CFG
+from tiv.cfg import CFG, fmt_path
 from tiv.mutate import M
+from tiv.sem import trace
 
 RULES = {
     "R1": "every function that stores to utils._swap_win_size, or stores True to utils._queries_enabled, resets "
@@ -192,14 +193,16 @@ def run(ck, m):
         g = CFG(gcs)
         hit_if = enclosing_stmt(cmps[0])
         snode = g.nodes_of(stores[0])
-        for rn in [n for n in g.nodes if n.kind == "stmt" and isinstance(n.ast, ast.Return)]:
-            in_hit = any(a is hit_if for a in _anc(rn.ast))
-            if in_hit:
-                continue
-            ok = g.dominated_by(rn, lambda x: x in snode)
-            ck.ob("R4", rn.ast, ok,
-                  "a return of a freshly computed (or failed) cell size is reachable without updating the cache: the entry for an older terminal size is never evicted",
-                  stmt=f"get_cell_size: {short(rn.ast, 60)} after store")
+        tnodes = [n for n in g.nodes if n.kind == "test" and n.ast is not None and any(x is cmps[0] for x in ast.walk(n.ast))]
+        ck.expect(len(tnodes) == 1 and isinstance(hit_if, ast.If) and not (isinstance(hit_if.test, ast.UnaryOp)), "get_cell_size: cache-hit test node not recognised")
+        if len(tnodes) == 1:
+            tn = tnodes[0]
+            miss_lab = "false"       # the test is `terminal_size == key`: the miss path is its false edge
+            p = g.search([tn], lambda x: x is g.exit_return, avoid=lambda x: x in snode,
+                         edge_ok=lambda a, lab, d: not lab.startswith(("e:", "p:")) and not (a is tn and lab != miss_lab))
+            ck.ob("R4", hit_if, p is None,
+                  f"a return of a freshly computed (or failed) cell size is reachable without updating the cache ({fmt_path(p) if p else ''}): the entry for an older terminal size is never evicted",
+                  stmt="get_cell_size: every miss path stores before returning")
 
     # ---- R5 -----------------------------------------------------------------------------
     scr = m.get(I, "set_cell_ratio")
@@ -221,15 +224,21 @@ def run(ck, m):
                 fixed = auto and "ratio is AutoCellRatio.FIXED" in cs
                 is_none = isinstance(v, ast.Constant) and v.value is None
                 if fixed:
-                    ck.ob("R5", st, not is_none and "get_cell_size()" in norm(v), "FIXED must snapshot the ratio computed from get_cell_size() now", stmt="set_cell_ratio FIXED")
+                    ck.ob("R5", st, not is_none and "get_cell_size()" in norm(trace(scr, v)), "FIXED must snapshot the ratio computed from get_cell_size() now", stmt="set_cell_ratio FIXED")
                 elif auto:
                     ck.ob("R5", st, is_none, f"DYNAMIC must store None so that get_cell_ratio() recomputes on every call; stores `{short(v, 40)}`", stmt="set_cell_ratio DYNAMIC")
                 else:
                     ck.ob("R5", st, norm(v) == "ratio", "an explicit ratio must be stored unchanged", stmt="set_cell_ratio explicit")
     ck.expect(n_cases == 3, f"set_cell_ratio: expected the 3 cases FIXED / DYNAMIC / explicit, found {n_cases}")
-    ret = [s for s in gcr.body if isinstance(s, ast.Return)]
-    ok = len(ret) == 1 and isinstance(ret[0].value, ast.BoolOp) and isinstance(ret[0].value.op, ast.Or) \
-        and norm(ret[0].value.values[0]) == "_cell_ratio" and "get_cell_size()" in norm(ret[0].value.values[1])
+    ret = [s for s in body_walk(gcr) if isinstance(s, ast.Return)]
+    ok = False
+    if len(ret) == 1:
+        rv_ = trace(gcr, ret[0].value)
+        ok = isinstance(rv_, ast.BoolOp) and isinstance(rv_.op, ast.Or) and norm(rv_.values[0]) == "_cell_ratio" and "get_cell_size()" in norm(rv_.values[1])
+    elif len(ret) == 2:
+        from tiv.sem import econds
+        forms = [(econds(gcr, r), norm(trace(gcr, r.value))) for r in ret]
+        ok = any("_cell_ratio" in c and v == "_cell_ratio" for c, v in forms) and any("not _cell_ratio" in c and "get_cell_size()" in v for c, v in forms)
     ck.ob("R5", gcr, ok, "get_cell_ratio must return the stored ratio if set, else recompute from get_cell_size()", stmt="get_cell_ratio")
     ck.min_instances("R5", 5)
     ck.min_instances("R3", 8)
